@@ -116,6 +116,8 @@ type kernel struct {
 	simStart time.Time
 	donefd   [2]int
 	foreign  int
+
+	setupChain chan struct{}
 }
 
 const (
@@ -307,6 +309,11 @@ func (k *kernel) goChain(site int, fn func()) {
 	if t != nil {
 		prev = t.chain
 		t.chain = done
+	} else {
+		// harness set-up (parsing the trees handed to Apply) before the
+		// tasks start: single goroutine, same canonical order
+		prev = k.setupChain
+		k.setupChain = done
 	}
 	go func() {
 		if prev != nil {
